@@ -461,3 +461,34 @@ package meta
 //@ func (*DB).exists
 //@   property C01
 //@   ensures [present_only_if_container_live_and_status_available] res0 ==> !viewContainerRemoved() && viewStatus() == statusAvailable
+
+// ---- C01 (status inheritance of split children): the parent of a header-less child is found
+// by walking the siblings that share its first-object / split ID. The walk is driven by the
+// caller's cursor; looking a sibling's parent up repositions the cursor it is given, so the
+// loop body must use a cursor of its own - with the driving cursor only the first sibling
+// would ever be consulted.
+//@ ghost pred cursorOfItsOwn(c *bbolt.Cursor) bool
+//@ callrule c01_sibling_walk_makes_its_own_cursor in seekForParentViaAttribute
+//@   property C01
+//@   callee (*bbolt.Bucket).Cursor
+//@   pureeffect
+//@   defines cursorOfItsOwn(result)
+//@ callrule c01_sibling_lookup_does_not_move_the_walk in seekForParentViaAttribute
+//@   property C01
+//@   callee metabase.getParentID
+//@   pureeffect
+//@   requires [lookup_uses_a_cursor_of_its_own] cursorOfItsOwn(a0)
+
+// An address may carry a garbage mark without an object entry (marked before the object
+// arrived, or a virtual parent). Removing its metadata must still take the mark away -
+// otherwise an object stored there later is born "not found" - so the path that answers
+// "not a physical object" for a missing entry runs only after the mark was looked up.
+//@ ghost pred garbageMarkLookedUp() bool
+//@ callrule c01_delete_looks_the_garbage_mark_up in deleteMetadata
+//@   property C01
+//@   callee (*bbolt.Cursor).Seek
+//@   pureeffect
+//@   defines a0[0] == metaPrefixGarbage ==> garbageMarkLookedUp()
+//@ func deleteMetadata
+//@   property C01
+//@   ensures [missing_entry_still_loses_its_garbage_mark] !haveObject ==> garbageMarkLookedUp()
